@@ -10,6 +10,7 @@ CONSTANTS
   LogV = {}
   RefV = {}
   SuiV = {}
+  StageFolds = FALSE
   MaxOps = 0
   MaxDepth = 0
   MaxCommits = 0
